@@ -295,6 +295,7 @@ impl Prop for C05 {
         }
         v.push("calendar:inside-CalType-container".to_string());
         v.push("holiday-list:not-chronological".to_string());
+        v.push("calendar:named-with-settlement-inside-CalType-container".to_string());
         v
     }
     fn min_evaluations(&self, tier: Tier) -> u64 {
@@ -327,12 +328,17 @@ impl Prop for C05 {
                 starts.push(anchor);
             }
             ctx.crumb(&format!("calendar {}", spec.describe()));
-            match build_cal(&spec) {
-                Some(any) => {
-                    if any.is_wrapped() {
-                        ctx.class("calendar:inside-CalType-container");
+            match build_cal_forms(&spec) {
+                Some(forms) => {
+                    for any in forms.iter() {
+                        if any.is_wrapped() {
+                            ctx.class("calendar:inside-CalType-container");
+                            if matches!(&spec, CalSpec::Named(n) if n.contains('|')) {
+                                ctx.class("calendar:named-with-settlement-inside-CalType-container");
+                            }
+                        }
+                        with_cal!(any, c => run_on(ctx, c, &spec, &starts, rng));
                     }
-                    with_cal!(&any, c => run_on(ctx, c, &spec, &starts, rng));
                 }
                 None => ctx.violation("C05|calendar-unresolved", json!({"calendar": spec.describe()})),
             }
@@ -344,12 +350,17 @@ impl Prop for C05 {
             let spec = if rng.chance(0.35) { gen_custom(rng, z0, z1) } else { gen_union(rng, z0, z1) };
             let starts: Vec<i64> = (0..ndates).map(|_| z0 + rng.range_i(200, (z1 - z0) - 200)).collect();
             ctx.crumb(&format!("calendar {}", spec.describe()));
-            match build_cal(&spec) {
-                Some(any) => {
-                    if any.is_wrapped() {
-                        ctx.class("calendar:inside-CalType-container");
+            match build_cal_forms(&spec) {
+                Some(forms) => {
+                    for any in forms.iter() {
+                        if any.is_wrapped() {
+                            ctx.class("calendar:inside-CalType-container");
+                            if matches!(&spec, CalSpec::Named(n) if n.contains('|')) {
+                                ctx.class("calendar:named-with-settlement-inside-CalType-container");
+                            }
+                        }
+                        with_cal!(any, c => run_on(ctx, c, &spec, &starts, rng));
                     }
-                    with_cal!(&any, c => run_on(ctx, c, &spec, &starts, rng));
                 }
                 None => ctx.harness_error("could not build generated calendar".into()),
             }
